@@ -101,9 +101,11 @@ def _replay(case, q, sc, env):
         if getattr(h, "ndim", 0) == 0 or not hasattr(h, "to_delayed"):
             continue            # scalars are cut by persist only
         for kind in case["kinds"]:
-            ln = {"cutdepth": depth, "cutkind": kind, "cut_failed": False, "msg": "", "has_graph": False, "graph": [], "outs": []}
+            ln = {"cutdepth": depth, "cutkind": kind, "cut_failed": False, "msg": "", "has_graph": False, "graph": [], "outs": [], "refusal_ok": False}
             try:
                 imp = do_cut(h, kind)
+                # merge_asof refuses inputs without known divisions ("input must be sorted!"): a cut that (documentedly) loses them makes the rest refuse
+                ln["refusal_ok"] = bool("mergeasof" in rel.ops_of(q)[len(rel.ops_of(node)):] and not imp.known_divisions)
                 cutq = build_over(q, node, imp, env)
                 res = rel.observe(lambda: rel.run_compute(cutq))
                 ln["schema_cut"] = walk.schema_of(cutq._meta)
@@ -140,11 +142,11 @@ def _replay(case, q, sc, env):
                 a = dx.concat([imp.partitions[0], imp.partitions[imp.npartitions - 1]])
                 b = dx.concat([h.partitions[0], h.partitions[h.npartitions - 1]])
                 ra, rb = rel.observe(lambda: rel.run_compute(a)), rel.observe(lambda: rel.run_compute(b))
-                lines.append({"cutdepth": depth, "cutkind": kind + "+select", "cut_failed": False, "msg": "", "has_graph": False, "graph": [], "outs": [],
+                lines.append({"cutdepth": depth, "cutkind": kind + "+select", "cut_failed": False, "msg": "", "has_graph": False, "graph": [], "outs": [], "refusal_ok": False,
                               "select": True, "head": node, "uncut_override": rb, "cut": ra, "schema_cut": walk.schema_of(a._meta), "schema_uncut": walk.schema_of(b._meta),
                               "div_known_uncut": False, "div_known_cut": False, "div_uncut": [], "div_cut": [], "div_loss_documented": True})
             except Exception as ex:
-                lines.append({"cutdepth": depth, "cutkind": kind + "+select", "cut_failed": True, "msg": f"{type(ex).__name__}: {ex}"[:200], "has_graph": False, "graph": [], "outs": [],
+                lines.append({"cutdepth": depth, "cutkind": kind + "+select", "cut_failed": True, "msg": f"{type(ex).__name__}: {ex}"[:200], "has_graph": False, "graph": [], "outs": [], "refusal_ok": False,
                               "cut": {"ok": False, "err": type(ex).__name__}, "schema_cut": {}, "schema_uncut": {}, "div_known_uncut": False, "div_known_cut": False,
                               "div_uncut": [], "div_cut": [], "div_loss_documented": True})
     # one common scale for all results of this program
@@ -215,7 +217,8 @@ def run(tier="quick", seed=0, replay_path=None):
             chk.note_nontrivial(common.case_hash([c["q"], ln["cutdepth"], ln["cutkind"]]))
         if ln["tid"] in rejects:
             chk.fail(rejects[ln["tid"]], {"q": c["q"], "sc": c["sc"], "dseed": c["dseed"], "np1": c["np1"], "np2": c["np2"], "ops": rel.ops_of(c["q"]),
-                                          "cutdepth": ln["cutdepth"], "cutkind": ln["cutkind"], "errmsg": ln["msg"], "parquet": bool(c.get("parquet"))},
+                                          "cutdepth": ln["cutdepth"], "cutkind": ln["cutkind"], "errmsg": ln["msg"], "parquet": bool(c.get("parquet")),
+                                          "cut_ops": rel.ops_of(nodes_of(c["q"])[ln["cutdepth"]]) if ln["cutdepth"] < len(nodes_of(c["q"])) else []},
                      {"msg": ln["msg"], "schema_cut": ln["schema_cut"], "schema_uncut": ln["schema_uncut"], "div_cut": ln["div_cut"], "div_uncut": ln["div_uncut"]})
     chk.rule = ("programs = TLC-generated queries (QueryGen general) with >= 2 operators; every proper sub-collection (frame/series/index) is cut with " + ", ".join(CUT_KINDS) +
                 "; the rest of the program continues on the re-imported collection; additionally the first and last partition are selected on the imported node. "
